@@ -44,7 +44,7 @@ man = {
     "engines": [{
         "name": "sa", "path": "/verif/sa",
         "serves_properties": [c["property_id"] for c in checks],
-        "kind_free_text": "repository-specific static analysis on Python ast: source model, resolved call graph with class hierarchy, structured exit-path abstract interpreter (CFG with exception edges and duplicated finally), path conditions, freshness/effect/progress analyses, table extraction; self-validated by in-memory fault/refactor seeds in the thorough tier",
+        "kind_free_text": "repository-specific static analysis on Python ast: source model, resolved call graph with class hierarchy, structured exit-path abstract interpreter (CFG with exception edges and duplicated finally), path conditions, freshness/effect/progress analyses, table extraction; all rules run on a NORMAL FORM of the source (sa/normalize.py: helpers, decorators, context managers, small classes and tables that are new with respect to the reviewed inventory are undone first; the rewrites are differential-tested on synthetic modules by tools/test_normalize.py in every thorough run); self-validated by in-memory fault/refactor seeds, a mutation sweep and the stored seeded/ and refactors/ corpora in the thorough tier",
     }],
     "checks": checks,
     "notes": "Technique family: static analysis only. Every check decides a named structural clause of its property from the current /repo working tree (never imports or runs klongpy) and says so in level_note and evidence. Exit 0 held / 1 VIOLATION / 2 ANALYSIS-ERROR. Known genuine defects that were not repaired are in known_findings.json and reported as KNOWN-FINDING lines.",
